@@ -2,7 +2,11 @@
     operator form used by the executor (by value / by reference / assigning —
     all forward to one impl, so they share the model function), the integer
     inputs a b c d (x = Rational::new(a, b), y = Rational::new(c, d)) and what
-    the implementation returned.  [model_check]: observation = model.
+    the implementation returned.  The executor may build an operand of the same
+    VALUE by another route (new_int(a) / ZERO / ONE for b = 1, a struct literal
+    a/b with b > 0, the result of a history of earlier operations whose canonical
+    fields are a b): the prediction is the same, because every operator result is
+    the canonical form of the exact value ([c07_unreduced_same], [c07_canonical_eq]).  [model_check]: observation = model.
     [spec_check]: the observation satisfies the property, decided by exact
     integer arithmetic on the inputs (cross-multiplication, [Z.gcd]) — it never
     calls the model's arithmetic. *)
@@ -11,7 +15,8 @@ From RlibV Require Import Common.Batch C11.Model C07.Model.
 Import ListNotations.
 Open Scope Z_scope.
 
-Inductive form := FVal | FRef | FAsgVal | FAsgRef | FNone.
+Inductive form := FVal | FRef | FAsgVal | FAsgRef | FNone
+  | FAll.   (* the executor ran all four forms and they returned the same fields *)
 Inductive opk := ONew | ONewInt | OAdd | OSub | OMul | ODiv | ONeg | OCmp | OEqHash | OFloor | OCeil | OShow.
 
 (** what the Rust side printed *)
@@ -20,7 +25,10 @@ Inductive obs :=
 | RRat (a b : Z)                   (* fields of the resulting struct *)
 | RCmp (c pc : comparison)         (* Ord::cmp, PartialOrd::partial_cmp (always Some) *)
 | REq (eq heq : bool)              (* x == y,  hash(x) == hash(y) under a fixed-key hasher *)
-| RStr (s : string).               (* format!("{}", x) *)
+| RStr (s : string)                (* format!("{}", x) *)
+| RBad (s : string).               (* the executor's own consistency checks failed (value != Rational::new of its fields,
+                                      hash / cmp disagree with ==, clone differs, prefix of a history went wrong ...):
+                                      equal to no prediction and accepted by no specification *)
 
 Inductive case := Case (f : form) (o : opk) (a b c d : Z) (r : obs).
 
